@@ -246,6 +246,7 @@ impl<const N: usize, const T: usize> StaticLut<N, T> {
 
     /// Obtain the two cofactors with respect to a variable
     pub fn cofactors(&self, ind: usize) -> (Self, Self) {
+        self.check_var(ind);
         let mut c = (*self, *self);
         cofactor0_inplace(self.num_vars(), c.0.table.as_mut(), ind);
         cofactor1_inplace(self.num_vars(), c.1.table.as_mut(), ind);
@@ -254,6 +255,7 @@ impl<const N: usize, const T: usize> StaticLut<N, T> {
 
     /// Create a Lut from its two cofactors
     pub fn from_cofactors(c0: &Self, c1: &Self, ind: usize) -> Self {
+        c0.check_var(ind);
         let mut ret = Self::zero();
         from_cofactors_inplace(
             N,
